@@ -85,7 +85,11 @@ def one_case(ctx, case, tag=""):
     ctx.count(f"{tag}impl:{r['class']}")
     nontrivial = False
     if r["class"] == "internal":
-        ctx.fail(Failure("crash", r["msg"], {"case": case}))
+        if L.nested_default_shape(case):
+            # a crash, not a wrong text: C17's finding (merge_dicts nests {dl: {dl: text}}); nothing for C08 to observe
+            ctx.count("skipped:c17-crash-nested-default-language")
+        else:
+            ctx.fail(Failure("crash", r["msg"], {"case": case}))
     elif r["class"] == "ok":
         obs = L.observe(r["xform"], case)
         oracle(ctx, case, obs, spec)
@@ -113,6 +117,14 @@ def is_f38(f: Failure) -> bool:
     return f.kind == "language-missing-empty-column"
 
 
+def is_f39(f: Failure) -> bool:
+    """wrong/missing text of a *choice* whose row has the nested-default shape for that very kind"""
+    if f.kind != "text" or not f.extra.get("key", "").startswith("c"):
+        return False
+    hits = L.nested_default_hits(f.case["case"])
+    return ("choices", int(f.extra["key"][1:]), f.extra["kind"]) in hits
+
+
 def replay(ctx, payload, bs):
     before = len(ctx.failures), len(ctx.mismatches)
     one_case(ctx, payload["case"]["case"])
@@ -120,4 +132,4 @@ def replay(ctx, payload, bs):
 
 
 def main(argv):
-    return vcore.run_check(PROP, explore, RULE, matchers={"F38-empty-translated-column": is_f38}, replay=replay, argv=argv)
+    return vcore.run_check(PROP, explore, RULE, matchers={"F38-empty-translated-column": is_f38, "F39-choices-default-suffix-nested": is_f39}, replay=replay, argv=argv)
